@@ -28,6 +28,10 @@ pub struct World {
     /// flagged `ignored_by_vcs`).
     #[serde(default)]
     pub gitignore: Vec<String>,
+    /// Unchanged context lines around the inserted line of `Insert` sections (`git diff -U<n>`;
+    /// git's default is 3, `-U0` gives none).
+    #[serde(default)]
+    pub diff_context: usize,
 }
 
 #[derive(Serialize, Deserialize, Clone, Debug, PartialEq, Default)]
@@ -56,6 +60,18 @@ pub struct FileSpec {
     pub block_comments: u64,
 }
 
+/// The one-line change an `Insert` section describes.
+#[derive(Serialize, Deserialize, Clone, Debug, PartialEq, Default)]
+pub enum LineEdit {
+    /// Rendered line `line` was added.
+    #[default]
+    Inserted,
+    /// Rendered line `line` replaces a line that read `old` (a "modified" line: `-old`, `+new`).
+    Replaced { old: String },
+    /// A line reading `old` that sat right in front of rendered line `line` was removed.
+    Removed { old: String },
+}
+
 #[derive(Serialize, Deserialize, Clone, Debug, PartialEq, Default)]
 pub enum FileDiff {
     /// The diff does not mention this file.
@@ -66,10 +82,14 @@ pub enum FileDiff {
     /// The diff is one pure single-line insertion (-U0): rendered line number `line` is new.
     /// With `renamed_from`, the same diff also renames the file (git's "rename from/to" section):
     /// the old path no longer exists, the file named in the diff is the new one.
+    /// `edit` says what happened at that place: the line is new (default), it replaces another
+    /// line, or a line that used to sit right in front of rendered line `line` is gone.
     Insert {
         line: usize,
         #[serde(default)]
         renamed_from: Option<String>,
+        #[serde(default)]
+        edit: LineEdit,
     },
     /// The diff deletes the file; it does not exist in the tree.
     Deleted,
@@ -612,7 +632,7 @@ fn diff_path(p: &str) -> String {
     }
 }
 
-pub fn render_diff_section(f: &FileSpec, rendered: &RenderedFile) -> Option<String> {
+pub fn render_diff_section(f: &FileSpec, rendered: &RenderedFile, ctx: usize) -> Option<String> {
     let p = &f.path;
     match &f.diff {
         FileDiff::None => None,
@@ -634,25 +654,71 @@ pub fn render_diff_section(f: &FileSpec, rendered: &RenderedFile) -> Option<Stri
             }
             Some(s)
         }
-        FileDiff::Insert { line, renamed_from } => {
+        FileDiff::Insert { line, renamed_from, edit } => {
             let l = *line;
             let text = rendered.lines.get(l - 1)?;
+            let n = rendered.lines.len();
+            let span = |start: usize, count: usize| {
+                if count == 1 { format!("{start}") } else { format!("{start},{count}") }
+            };
+            let mut hunk;
+            match edit {
+                LineEdit::Inserted | LineEdit::Replaced { .. } => {
+                    let replaced = matches!(edit, LineEdit::Replaced { .. }) as usize;
+                    let before = ctx.min(l - 1);
+                    let after = ctx.min(n - l);
+                    hunk = if before + after + replaced == 0 {
+                        format!("@@ -{},0 +{} @@\n", l - 1, l)
+                    } else {
+                        format!(
+                            "@@ -{} +{} @@\n",
+                            span(l - before, before + after + replaced),
+                            span(l - before, before + after + 1)
+                        )
+                    };
+                    for c in &rendered.lines[l - 1 - before..l - 1] {
+                        hunk.push_str(&format!(" {c}\n"));
+                    }
+                    if let LineEdit::Replaced { old } = edit {
+                        hunk.push_str(&format!("-{old}\n"));
+                    }
+                    hunk.push_str(&format!("+{text}\n"));
+                    for c in &rendered.lines[l..l + after] {
+                        hunk.push_str(&format!(" {c}\n"));
+                    }
+                }
+                LineEdit::Removed { old } => {
+                    // the removed line was line `l` of the old file; new lines l.. follow it
+                    let before = ctx.min(l - 1);
+                    let after = ctx.min(n + 1 - l);
+                    hunk = if before + after == 0 {
+                        format!("@@ -{} +{},0 @@\n", l, l - 1)
+                    } else {
+                        format!(
+                            "@@ -{} +{} @@\n",
+                            span(l - before, before + after + 1),
+                            span(l - before, before + after)
+                        )
+                    };
+                    for c in &rendered.lines[l - 1 - before..l - 1] {
+                        hunk.push_str(&format!(" {c}\n"));
+                    }
+                    hunk.push_str(&format!("-{old}\n"));
+                    for c in &rendered.lines[l - 1..l - 1 + after] {
+                        hunk.push_str(&format!(" {c}\n"));
+                    }
+                }
+            }
             match renamed_from {
                 None => Some(format!(
-                    "diff --git a/{p} b/{p}\nindex 2222222..3333333 100644\n--- a/{}\n+++ b/{}\n@@ -{},0 +{} @@\n+{}\n",
+                    "diff --git a/{p} b/{p}\nindex 2222222..3333333 100644\n--- a/{}\n+++ b/{}\n{hunk}",
                     diff_path(p),
                     diff_path(p),
-                    l - 1,
-                    l,
-                    text
                 )),
                 Some(old) => Some(format!(
-                    "diff --git a/{old} b/{p}\nsimilarity index 90%\nrename from {old}\nrename to {p}\nindex 2222222..3333333 100644\n--- a/{}\n+++ b/{}\n@@ -{},0 +{} @@\n+{}\n",
+                    "diff --git a/{old} b/{p}\nsimilarity index 90%\nrename from {old}\nrename to {p}\nindex 2222222..3333333 100644\n--- a/{}\n+++ b/{}\n{hunk}",
                     diff_path(old),
                     diff_path(p),
-                    l - 1,
-                    l,
-                    text
                 )),
             }
         }
@@ -689,7 +755,7 @@ impl World {
             StdinSpec::Piped => {
                 let mut s = String::new();
                 for &i in order {
-                    if let Some(sec) = render_diff_section(&self.files[i], &rendered[i]) {
+                    if let Some(sec) = render_diff_section(&self.files[i], &rendered[i], self.diff_context) {
                         s.push_str(&sec);
                     }
                 }
